@@ -26,13 +26,14 @@ type kconf struct {
 	resume  bool // the faulted connection is the resuming one
 	tickets bool // tickets on + client session cache, so NewSessionTicket is processed
 	reneg   tls.RenegotiationSupport
+	extras  bool // ALPN on both sides, OCSP staple and SCTs on the certificates (EncryptedExtensions / Certificate entries carry extensions)
 }
 
 func kconfs(thorough bool) []kconf {
 	v10, v11, v12, v13 := uint16(tls.VersionTLS10), uint16(tls.VersionTLS11), uint16(tls.VersionTLS12), uint16(tls.VersionTLS13)
 	out := []kconf{
-		{name: "k13-ecdsa-aes128-tickets", key: "p256", vers: v13, suites: []uint16{tls.TLS_AES_128_GCM_SHA256}, tickets: true},
-		{name: "k13-ecdsa-aes256-clientauth", key: "p256", vers: v13, suites: []uint16{tls.TLS_AES_256_GCM_SHA384}, cauth: true, tickets: true},
+		{name: "k13-ecdsa-aes128-tickets", key: "p256", vers: v13, suites: []uint16{tls.TLS_AES_128_GCM_SHA256}, tickets: true, extras: true},
+		{name: "k13-ecdsa-aes256-clientauth", key: "p256", vers: v13, suites: []uint16{tls.TLS_AES_256_GCM_SHA384}, cauth: true, tickets: true, extras: true},
 		{name: "k13-ed25519-chacha-resumed", key: "ed-srv-leaf", vers: v13, suites: []uint16{tls.TLS_CHACHA20_POLY1305_SHA256}, resume: true},
 		{name: "k12-ecdhe-ecdsa-gcm-reneg", key: "p256", vers: v12, suites: []uint16{tls.TLS_ECDHE_ECDSA_WITH_AES_128_GCM_SHA256}, tickets: true, reneg: tls.RenegotiateFreelyAsClient},
 		{name: "k12-ecdhe-ecdsa-chacha-clientauth", key: "p256", vers: v12, suites: []uint16{tls.TLS_ECDHE_ECDSA_WITH_CHACHA20_POLY1305}, cauth: true},
@@ -79,6 +80,19 @@ func mkKConfigs(cf kconf, logs [2]*tlsx.KeyLog) (*tls.Config, *tls.Config) {
 	} else {
 		sc.SessionTicketsDisabled = true
 	}
+	if cf.extras {
+		cc.NextProtos = []string{"h2", "http/1.1"}
+		sc.NextProtos = []string{"http/1.1"}
+		cc.SignedCertificateTimestampExt = true
+		staple := func(c *tls.Certificate) {
+			c.OCSPStaple = []byte("verif-c32 ocsp staple")
+			c.SignedCertificateTimestamps = [][]byte{[]byte("verif-c32 sct one"), []byte("sct two")}
+		}
+		staple(&sc.Certificates[0])
+		if len(cc.Certificates) > 0 {
+			staple(&cc.Certificates[0])
+		}
+	}
 	cc.Renegotiation = cf.reneg
 	cc.KeyLogWriter, sc.KeyLogWriter = logs[0], logs[1]
 	return cc, sc
@@ -116,6 +130,9 @@ func exchange2(s *tlsx.Session, o *kout, pmu *sync.Mutex) {
 			pmu.Lock()
 			o.panics = append(o.panics, fmt.Sprintf("%s: %s @ %s", who, ev.MsgClass(msg), site))
 			pmu.Unlock()
+			// the panicking side will not close its connection any more: close the transport, or its peer stays parked
+			s.Net.CloseDir(tlsx.C2S)
+			s.Net.CloseDir(tlsx.S2C)
 		}
 	}
 	seterr := func(party int, err error) {
@@ -577,10 +594,14 @@ func keyedMenu(cf kconf, base [2][]tlsx.Seen, thorough bool, emit func(kcase)) {
 						add(fmt.Sprintf("%s@%d = %d (was %d)", f.name, f.off, v, f.val), 1, with(hsMsg(mt, BL, b)))
 					}
 				}
-				// coherent shrink / grow of every vector: its last byte removed (a zero byte appended) and the field,
-				// every enclosing length and the message header adjusted, so only the innermost element is malformed
+				// coherent resize of every vector: emptied, its last byte removed, a zero byte appended — with the field,
+				// every enclosing length and the message header adjusted, so the framing stays well-formed (empty
+				// certificate list, empty signature, empty extension block, ...)
 				for fi, f := range fields {
-					for _, delta := range []int{-1, +1} {
+					for di, delta := range []int{-f.val, -1, +1} {
+						if di == 1 && f.val == 1 {
+							continue // same as emptying
+						}
 						if b, ok := coherentResize(body, fields, fi, delta); ok {
 							add(fmt.Sprintf("%s@%d resized by %+d, all enclosing lengths adjusted", f.name, f.off, delta), 1, with(hsMsg(mt, len(b), b)))
 						}
